@@ -21,6 +21,10 @@ type Trace11 struct {
 	Text    []int    `json:"text"`   // bytes (ISO-8859-1)
 	EncSeed uint64   `json:"enc"`    // seed of the encoder's free choices
 	Faults  [][2]int `json:"faults"` // (word index, non-zero delta)
+	// ModeFaults damages 4-bit words of the mode message (reader path only):
+	// (word index, delta 1..15); its own Reed-Solomon code over GF(16) repairs
+	// two words (compact, 5 check words) or three (full range, 6 check words)
+	ModeFaults [][2]int `json:"modefaults,omitempty"`
 	Path    string   `json:"path"`   // "decoder" | "reader"
 	Scale   int      `json:"scale,omitempty"`
 	Rot     int      `json:"rot,omitempty"`   // quarter turns
@@ -115,10 +119,19 @@ func rotate(m [][]bool, k int) [][]bool {
 type inst11 struct {
 	dec *azdec.Decoder
 	rd  *aztec.AztecReader
+	// the result this instance returned last, and a private copy of the text it
+	// showed then: what was handed to the caller must stay what it was
+	held     interface{ GetText() string }
+	heldText string
+}
+
+func (in *inst11) hold(res interface{ GetText() string }) {
+	in.held = res
+	in.heldText = string(append([]byte(nil), res.GetText()...))
 }
 
 func exec11(tr *Trace11, probe func(string)) (string, *fail) {
-	in := &inst11{azdec.NewDecoder(), aztec.NewAztecReader()}
+	in := &inst11{dec: azdec.NewDecoder(), rd: aztec.NewAztecReader()}
 	if tr.Prime != nil {
 		p := *tr.Prime
 		p.Prime = nil
@@ -152,11 +165,47 @@ func exec11on(in *inst11, tr *Trace11, probe func(string)) (string, *fail) {
 	if !within {
 		return "skip:beyond budget", nil
 	}
+	if tr.Path == "reader" && len(tr.ModeFaults) > 0 {
+		tm := 3
+		if tr.Compact {
+			tm = 2
+		}
+		seen := map[int]bool{}
+		for _, f := range tr.ModeFaults {
+			w, d := f[0], f[1]
+			if w < 0 || w >= len(s.ModeMods) || d < 1 || d > 15 || seen[w] {
+				continue
+			}
+			seen[w] = true
+		}
+		if len(seen) > tm {
+			return "skip:mode message damaged beyond its budget", nil
+		}
+		for w := range seen {
+			d := 0
+			for _, f := range tr.ModeFaults {
+				if f[0] == w {
+					d = f[1]
+					break
+				}
+			}
+			for b, p := range s.ModeMods[w] {
+				if (d>>uint(3-b))&1 == 1 {
+					m[p.Y][p.X] = !m[p.Y][p.X]
+				}
+			}
+			probe("fault.mode")
+		}
+		if len(seen) == tm {
+			probe("probe.mode_message_at_exactly_t")
+		}
+	}
 	want := latin1(tr.Text)
 	what := fmt.Sprintf("%s, %d damaged codewords (t=%d), path %s", s, nf, (len(s.Words)-s.DataWords)/2, tr.Path)
 	var got string
 	var err error
 	var pan interface{}
+	prevHeld, prevText := in.held, in.heldText
 	func() {
 		enter("hang/"+tr.Path, "hang/"+tr.Path, tr, what)
 		defer leave()
@@ -173,6 +222,7 @@ func exec11on(in *inst11, tr *Trace11, probe func(string)) (string, *fail) {
 				return
 			}
 			got = res.GetText()
+			in.hold(res)
 			return
 		}
 		what += fmt.Sprintf(" (scale %d, %d quarter turns, quiet zone %d)", tr.Scale, tr.Rot, tr.Quiet)
@@ -225,6 +275,7 @@ func exec11on(in *inst11, tr *Trace11, probe func(string)) (string, *fail) {
 			return
 		}
 		got = res.GetText()
+		in.hold(res)
 		if res.GetBarcodeFormat() != gozxing.BarcodeFormat_AZTEC {
 			err = fmt.Errorf("format %v", res.GetBarcodeFormat())
 		}
@@ -233,6 +284,9 @@ func exec11on(in *inst11, tr *Trace11, probe func(string)) (string, *fail) {
 	if nf == 0 {
 		cfg = "control"
 		probe("fault.none(control)")
+	}
+	if prevHeld != nil && prevHeld.GetText() != prevText {
+		return "", &fail{cfg + "/result-changes-later", fmt.Sprintf("%s: the result this instance returned for the previous symbol showed %q then and shows %q now", what, trunc(prevText), trunc(prevHeld.GetText()))}
 	}
 	switch {
 	case pan != nil:
@@ -514,7 +568,7 @@ func C11() *kit.Spec {
 		Engine:   "chansim",
 		Level:    "exploration",
 		Rule: "one evaluation = one reference-made Aztec symbol (stub sender) decoded by real code: path 'decoder' = aztec/decoder.Decode on the module matrix, path 'reader' = rendered at scale 2..5 with a quiet zone, 0..3 quarter turns, through AztecReader.Decode (white-rectangle finder, bull's-eye, orientation, mode-message RS, grid sampler, decoder). " +
-			"All 36 sizes (compact 1-4, full 1-32) in every batch; texts mix the five code tables, latches, P/S and U/S shifts, two-character punctuation codes and both binary-shift forms, the encoder's free choices are seeded; payload tiny / random / filled to capacity. Faults: <= floor(check words/2) codewords XOR-ed with non-zero deltas at their spiral positions (never the bull's-eye, mode message or reference grid). " +
+			"All 36 sizes (compact 1-4, full 1-32) in every batch; texts mix the five code tables, latches, P/S and U/S shifts, two-character punctuation codes and both binary-shift forms, the encoder's free choices are seeded; payload tiny / random / filled to capacity. Faults: <= floor(check words/2) codewords XOR-ed with non-zero deltas at their spiral positions (never the bull's-eye or reference grid); on the reader path the mode message's own GF(16) code is loaded with up to two (compact) / three (full range) damaged 4-bit words as well. " +
 			"Sweeps put a single-codeword fault on every codeword of one symbol per size (quick: a stride sample for the big sizes). distinct_nontrivial = distinct trace hashes of seeded runs with at least one fault or a rendered path",
 		StateMetric: "distinct (size, text, encoder choices, fault plan, pose) traces",
 		Assumptions: []string{
@@ -528,7 +582,7 @@ func C11() *kit.Spec {
 			"binariser (HybridBinarizer) on the rendered image":                      "real",
 			"module-matrix medium, rendering, rotation":                              "simulated (harness)",
 		},
-		FaultKinds:  []string{"none(control)", "cw"},
+		FaultKinds:  []string{"none(control)", "cw", "mode"},
 		SimTimeNote: "none: no timers; logical steps = symbols transmitted",
 		NumRuns:     func(tier string) int { return len(jobs(tier)) },
 		Run: func(c *kit.Ctx) {
@@ -671,6 +725,24 @@ func C11() *kit.Spec {
 					t2.Scale, t2.Rot, t2.Quiet = r.Range(2, 4), r.Intn(4), r.Range(0, 6)
 					if s.Size > 100 {
 						t2.Scale = 2
+					}
+					if r.Chance(1, 2) {
+						// the mode message has its own code: up to two (compact) or three
+						// (full range) of its 4-bit words damaged as well
+						tm := 3
+						if s.Compact {
+							tm = 2
+						}
+						k := tm
+						if r.Chance(1, 2) {
+							k = r.Range(1, tm)
+						}
+						if i == 3 && r.Chance(1, 2) {
+							t2.Faults = nil // mode message only, data codewords perfect
+						}
+						for _, w := range r.Sample(len(s.ModeMods), k) {
+							t2.ModeFaults = append(t2.ModeFaults, [2]int{w, r.Range(1, 15)})
+						}
 					}
 				}
 				c.Eval(kit.HashJSON(&t2), true)
